@@ -31,8 +31,10 @@ TOpen == /\ IsEvent("CliOpen") /\ Ev.src \in made
          /\ Chk((Ev.rc = 0) <=> Facts(Ev))
          /\ Chk(Facts(Ev) => Ev.same = 1)
          /\ UNCHANGED made
+(* a digest / MAC / derived key printed by a tool equals the value the reference construction gives for the same file and parameters *)
+TDigest == /\ IsEvent("CliDigest") /\ Chk(Ev.rc = 0 /\ Ev.got = Ev.expect) /\ UNCHANGED made
 TReset == IsEvent("Reset") /\ made' = {}
-Next == TProduce \/ TOpen \/ TReset
+Next == TProduce \/ TOpen \/ TDigest \/ TReset
 Spec == Init /\ [][Next]_<<l, made>>
 Accepted == LET d == TLCGet("stats").diameter IN IF d - 1 = Len(TraceLog) THEN TRUE ELSE PrintT(<<"REJECTED", d, TraceLog[d].e>>) /\ FALSE
 =============================================================================
